@@ -477,7 +477,10 @@ def instances(tier, seed):
     items.append(("mmd", {"tkeys": [list(k) for k in keys_of(2)], "mkeys": [list(k) for k in keys_of(2, [1, 2])], "nsigma": 2, "label": "mmd multi-sigma 2"}))
     for label, d in [("empty", []), ("negative", [[[0, 1], 0.5], [[1, 1], -0.5]]), ("unequal key length", [[[0, 1], 0.5], [[1], 0.5]]), ("non-tuple key", [[5, 1.0]]), ("negative int in key", [[[0, -1], 1.0]]), ("all zero", [[[0], 0.0], [[1], 0.0]])]:
         items.append(("reject", {"dict": d, "label": label}))
-    for label, d in [("two keys", [[[0, 1], 0.25], [[1, 1], 0.75]]), ("thirds", [[[0, 0, 1], 1 / 3], [[1, 0, 1], 1 / 3], [[1, 1, 1], 1 / 3]]), ("non-binary", [[[0, 2, 1], 0.5], [[3, 0, 0], 0.5]]), ("unnormalised input", [[[0], 2.0], [[1], 6.0]])]:
+    for label, d in [("two keys", [[[0, 1], 0.25], [[1, 1], 0.75]]), ("thirds", [[[0, 0, 1], 1 / 3], [[1, 0, 1], 1 / 3], [[1, 1, 1], 1 / 3]]), ("non-binary", [[[0, 2, 1], 0.5], [[3, 0, 0], 0.5]]), ("unnormalised input", [[[0], 2.0], [[1], 6.0]]),
+                     ("explicit zero-probability outcomes", [[[0, 0, 0], 0.5], [[0, 0, 1], 0.0], [[1, 1, 0], 0.0], [[1, 1, 1], 0.5]]), ("tiny and zero weights", [[[0, 1], 1e-300], [[1, 0], 0.0], [[1, 1], 1.0]]),
+                     ("single outcome", [[[1, 0, 1, 1], 1.0]]), ("many digits", [[[0], 0.1], [[1], 0.7], [[2], 0.2]]), ("two-digit symbols in keys", [[[10, 0], 0.25], [[1, 11], 0.75]]),
+                     ("weights summing to 1 only after rounding", [[[0], 0.1], [[1], 0.2], [[2], 0.30000000000000004], [[3], 0.4]])]:
         items.append(("io", {"dict": d, "label": label}))
     return items
 
